@@ -7,7 +7,8 @@ From Coq Require Import ZArith List Bool Arith.
 From NQ Require Import Sdk.SdkAst Sdk.Target Sdk.Eval Sdk.MemMgr Sdk.Lower Sdk.Flatten Sdk.Writes
   Sdk.SdkCheck Sdk.Wf.
 From NQ Require Import Proofs.SdkRegProofs Proofs.SdkFrameProofs Proofs.SdkFlattenProofs Proofs.SdkLowerProofs
-  Proofs.SdkInvProofs Proofs.SdkSimProofs Proofs.SdkTopProofs.
+  Proofs.SdkInvProofs Proofs.SdkSimProofs Proofs.SdkTopProofs Proofs.SdkCodeOk.
+From NQ Require Proofs.Bridge_SdkAsm.
 Import ListNotations.
 Local Open Scope Z_scope.
 
@@ -209,6 +210,17 @@ Proof. exact block_step. Qed.
 Theorem C05_sdk_compile_correct : sdk_compile_correct.
 Proof. exact sdk_compile_correct_wfs. Qed.
 
+(* ---- the static side condition of the end-to-end chain (H1 of props/C05_end_to_end.v, first half):
+   every block emitted for a program of well-formed segments whose peak number of simultaneously
+   live qubit handles (Wf.qpeak) is at most `cap` satisfies Bridge_SdkAsm.code_ok cap: register
+   indices below 16, no opaque command, every qalloc directly preceded by the set of its operand
+   to an id below cap *)
+Theorem C05_lower_prog_code_ok : forall segs cap bs st,
+  Forall (fun seg => bwfs seg = true) segs -> (qpeak segs <= cap)%nat ->
+  lower_prog true (prog_of segs) = Ok (bs, st) ->
+  forall b, In (Some b) bs -> Bridge_SdkAsm.code_ok cap (flatten b) = true.
+Proof. exact lower_prog_code_ok. Qed.
+
 (* ---- down to the commands that are sent, one block body *)
 Theorem C05_sdk_compile_correct_partial : forall b L st c st' e e' sg,
   bwfs b = true -> lower_block true b st = Ok (c, st') -> Inv st -> sub (l_len st') L ->
@@ -319,6 +331,28 @@ Proof.
   - reflexivity.
 Qed.
 
+Example C05_code_ok_nonvacuous : Nat.leb (qpeak ex_segs) 2 = true.
+Proof. vm_compute. reflexivity. Qed.
+
+(* an array entry addressed through an index that is itself an array entry (Future-indexed Future):
+   add of a constant, add of another entry, measurement into it; direct evaluation and the run of the
+   lowered, flattened code agree on the data array (30 + 5 + 10, then overwritten by the outcome 1).
+   These two constructors are outside `wfs`: correspondence and oracle cover them, not the composed theorem *)
+Definition ex_nested : block :=
+  blk [SNewArray 0 3 (Some [Some 10%Z; Some 20%Z; Some 30%Z]); SNewArray 1 1 (Some [Some 2%Z]);
+       SFutAddX 0 1 0 (AInt 5) None; SFutAddX 0 1 0 (AFut 0 (IxC 0)) None;
+       SNewQubit 0; SGate GX 0; SMeasFutX 0 false 0 1 0; SFlush].
+
+Example C05_nested_future_index_nonvacuous :
+  (match eval_prog ex_nested [1%Z] with Some e => alookup 0%nat (e_arr e) | None => None end)
+    = Some [Some 10%Z; Some 20%Z; Some 1%Z] /\
+  (match lower_prog true ex_nested with
+   | Ok (bs, _) => match run_blocks 200 bs (m0 [1%Z]) with RDone s => m_arr s 0%nat | _ => None end
+   | Err _ => None
+   end) = Some [Some 10%Z; Some 20%Z; Some 1%Z] /\
+  bwfs ex_nested = false.
+Proof. vm_compute. repeat split; reflexivity. Qed.
+
 Print Assumptions C05_flatten_correct.
 Print Assumptions C05_negated_branch.
 Print Assumptions C05_lower_if.
@@ -334,5 +368,6 @@ Print Assumptions C05_block_compile_correct.
 Print Assumptions C05_lower_array_init.
 Print Assumptions C05_block_step.
 Print Assumptions C05_sdk_compile_correct.
+Print Assumptions C05_lower_prog_code_ok.
 Print Assumptions C05_sdk_compile_correct_partial.
 Print Assumptions C05_unrestricted_refuted.
